@@ -141,6 +141,9 @@ func main() {
 	if len(w.Renamed) > 0 {
 		r.Extra["normalized_renamed_functions"] = w.Renamed
 	}
+	if len(w.Adopted) > 0 {
+		r.Extra["normalized_adopted_functions"] = w.Adopted
+	}
 	if len(w.Inlined) > 0 {
 		r.Extra["normalized_calls_inlined"] = w.Inlined
 	}
